@@ -197,11 +197,27 @@ def wire_jobs(ctx, quick, plain, segs, wnames, rng):
                 n, o = lab, rng.choice(origins)
             if wirelen(n) > 255:
                 continue
-            steps.append(("write", n, o, rng.random() < 0.85) if rng.random() < 0.9 else ("plain", n, o, rng.random() < 0.5))
+            r = rng.random()
+            steps.append(("write", n, o, rng.random() < 0.85) if r < 0.85 else ("plain", n, o, rng.random() < 0.5) if r < 0.95
+                         else ("digest", n, o))
         if steps:
             add(base, steps)
     ctx.extra.setdefault("universe", {}).update({"wire_cases": len(plain), "segment_cases": len(segs), "write_scripts": n1 - n0 - nrand})
     ctx.extra["random_wire_cases"] = nrand + len(jobs) - n1
+    return jobs
+
+
+def length_jobs(ctx, lens):
+    """every encoder on RELATIVE name x absolute origin at the 255 / 256 boundary (LenRel x LenOrg)"""
+    rel = [x[1] for x in lens if x[0] == "r"]
+    org = [x[1] for x in lens if x[0] == "o"]
+    jobs = []
+    for n in rel:
+        for o in org:
+            so = ["some", o]
+            jobs.append(("L%d" % len(jobs), "wwire", (0, [("plain", n, so, False), ("plain", n, so, True), ("digest", n, so),
+                                                          ("write", n, so, False), ("write", n, so, True)])))
+    ctx.extra.setdefault("universe", {}).update({"length_rel": len(rel), "length_origins": len(org), "length_scripts": len(jobs)})
     return jobs
 
 
@@ -280,6 +296,9 @@ def classify(tr, line, clause):
         bad = [r for r in rs if r[0] == "err" and not r[2]]
         if bad and all(r[1] == "error" for r in bad) and has_big_escape(e["text"]):
             return "F1:from_text-decimal-escape-above-255:struct.error"
+    if clause in ("EncodedLength", "PlainWire") and op == "plain" and e["res"][0] == "ok" and len(e["res"][1]) > 255 \
+            and not (e["n"] and e["n"][-1] == []) and e["origin"][0] == "some":
+        return "F36:to_wire-without-file-relative-name-plus-origin-exceeds-255"
     if clause == "Consumed" and tr.get("kind") == "decode" and op == "end" and e["res"][0] == "ok":
         seeks = [i for i, x in enumerate(ev) if x.get("op") == "seek"]
         if seeks:
@@ -316,7 +335,8 @@ def run(ctx):
                 "from_text / Tokenizer.get_name under 3 origins; Texts (all texts over the escape alphabet) -> from_text, "
                 "get_name; PlainCases (all byte strings over 11 byte classes x every start offset) and SegCases (segment "
                 "level, 255/256 octets, 0x3FFF) -> recorded decoding; WNames -> all pairs / triples of compressed writes, "
-                "bases around 0x3FFF; ConstructInputs -> constructors at 63/64 and 255/256; plus seeded random names, "
+                "bases around 0x3FFF; LenRel x LenOrg -> to_wire(None) / to_digestable / to_wire(file) of relative name + origin "
+                "at 255/256; ConstructInputs -> constructors at 63/64 and 255/256; plus seeded random names, "
                 "texts, corrupted compressed messages and write scripts over all 256 octets. distinct = distinct (operation, "
                 "arguments); all are non-trivial except the empty text / empty wire / empty name inputs")
     ctx.assumptions += ["TLC and CommunityModules Json are correct", "driver projections (drivers/c01_names.py, RecParser) are faithful",
@@ -351,11 +371,12 @@ def _run(ctx, quick, mc):
         # multi-worker requests when many checks run at once); they overlap with the validation
         if not os.environ.get("VERIF_C01_SKIP_MC"):      # (development aid: validation without the model runs)
             mc += _models(ctx, ex, tier)
-        gens = {k: ex.submit(gen, ctx, k, quick) for k in ("namesA", "texts", "wires", "segs", "wnames", "cons", "neigh")}
+        gens = {k: ex.submit(gen, ctx, k, quick) for k in ("namesA", "texts", "wires", "segs", "wnames", "cons", "neigh", "len")}
         g = {k: f.result() for k, f in gens.items()}
         rng = random.Random(2000 + ctx.seed)
         jobs = text_jobs(ctx, quick, g["namesA"], g["texts"], rng)
         jobs += wire_jobs(ctx, quick, g["wires"], g["segs"], g["wnames"], rng)
+        jobs += length_jobs(ctx, g["len"])
         jobs += cons_jobs(ctx, quick, g["cons"], g["neigh"], rng)
         ctx.log("%d jobs to run on the implementation" % len(jobs))
         traces = ctx.pmap(c01_names.run_job, jobs, chunk=1000)
